@@ -1740,17 +1740,30 @@ where
                         // Clear the buffer
                         self.buffer.clear();
 
-                        let response = self
-                            .receive_server_message(server, &address, &pool, &self.stats.clone())
-                            .await?;
+                        // Read all data the server has to offer: statements that follow the COPY in
+                        // the same query can return more rows than one chunk holds.
+                        loop {
+                            let response = self
+                                .receive_server_message(
+                                    server,
+                                    &address,
+                                    &pool,
+                                    &self.stats.clone(),
+                                )
+                                .await?;
 
-                        match write_all_flush(&mut self.write, &response).await {
-                            Ok(_) => (),
-                            Err(err) => {
-                                server.mark_bad(err.to_string().as_str());
-                                return Err(err);
+                            match write_all_flush(&mut self.write, &response).await {
+                                Ok(_) => (),
+                                Err(err) => {
+                                    server.mark_bad(err.to_string().as_str());
+                                    return Err(err);
+                                }
+                            };
+
+                            if !server.is_data_available() {
+                                break;
                             }
-                        };
+                        }
 
                         // After an extended protocol COPY the server is not done before the
                         // client's Sync, which the Sync arm forwards.
